@@ -187,9 +187,15 @@ func (g *Geometry) UnmarshalJSON(data []byte) error {
 				return ErrInvalidGeometry
 			}
 		}
+		g.Coordinates = nil
 		g.Geometries = jg.Geometries
 	default:
 		return ErrInvalidGeometry
+	}
+
+	if jg.Type != "GeometryCollection" {
+		// the receiver may hold the members of an earlier decode
+		g.Geometries = nil
 	}
 
 	g.Type = g.Geometry().GeoJSONType()
@@ -255,9 +261,15 @@ func (g *Geometry) UnmarshalBSON(data []byte) error {
 				return ErrInvalidGeometry
 			}
 		}
+		g.Coordinates = nil
 		g.Geometries = bg.Geometries
 	default:
 		return ErrInvalidGeometry
+	}
+
+	if bg.Type != "GeometryCollection" {
+		// the receiver may hold the members of an earlier decode
+		g.Geometries = nil
 	}
 
 	g.Type = g.Geometry().GeoJSONType()
